@@ -19,7 +19,9 @@
    equally shaped matrices is that stack along a new last axis; C11_vstack_axis / C11_hstack_axis / C11_dstack_axis —
    on inputs that already have the required rank the three conveniences ARE the concatenation along axis 0 / 1 / 2;
    RANK-1 JOINS: C11_append_rank1 / C11_concatenate_rank1 / C11_hstack_rank1 chain the element lists;
-   C11_vstack_rank1 — n vectors of one length l give the n x l matrix whose row k is input k.
+   C11_vstack_rank1 — n vectors of one length l give the n x l matrix whose row k is input k; vectors of different
+   lengths are refused (C11_vstack_rank1_ragged — repair F30: the pinned code chained them and cut rows of the first
+   one's length whenever the total happened to fit).
    C11_column_stack — vectors of r elements and r-row matrices are laid side by side: the result is r x (sum of the
    column counts) and entry (i, j) is found by walking the inputs subtracting their column counts (col_locate).
    NOT YET PROVED (checked by the correspondence run): the promotion of rank-0 / mixed-rank inputs by hstack / dstack,
@@ -176,6 +178,11 @@ Theorem C11_column_stack : forall (T : Type) (d : T) r (first : arr T) rest,
     forall i j, i < r -> j < fold_left (fun s a => s + ncols a) (first :: rest) 0 ->
       get d R [i; j] = col_locate d (first :: rest) i j.
 Proof. exact @column_stack_spec. Qed.
+
+Theorem C11_vstack_rank1_ragged : forall (T : Type) (d : T) (first : arr T) rest x,
+  Forall (fun a => ndim a = 1) (first :: rest) -> In x rest -> shape x <> shape first ->
+  vstack d (first :: rest) = Err EConcat.
+Proof. exact @vstack_rank1_ragged. Qed.
 
 Example C11_stack_nonvacuous :
   stack 0%Z [mk [1;2;3;4;5;6]%Z [2;3]; mk [7;8;9;10;11;12]%Z [2;3]] (Some 1) =
